@@ -83,8 +83,8 @@ func freshMapS(v ssa.Value, depth int, seen map[ssa.Value]bool) bool {
 				if call, isCall := base.(*ssa.Call); isCall && depth < 3 {
 					if f := call.Call.StaticCallee(); f != nil && f.Blocks != nil {
 						fname := ""
-						if st, ok := derefT(a.X.Type()).Underlying().(*types.Struct); ok {
-							fname = st.Field(a.Field).Name()
+						if _, ok := derefT(a.X.Type()).Underlying().(*types.Struct); ok {
+							fname = ir.FieldName(a.X.Type(), a.Field)
 						}
 						n := 0
 						for _, in := range ir.Instrs(f) {
@@ -113,8 +113,8 @@ func freshMapS(v ssa.Value, depth int, seen map[ssa.Value]bool) bool {
 				return false
 			}
 			name := ""
-			if st, ok := derefT(root.Type()).Underlying().(*types.Struct); ok {
-				name = st.Field(a.Field).Name()
+			if _, ok := derefT(root.Type()).Underlying().(*types.Struct); ok {
+				name = ir.FieldName(root.Type(), a.Field)
 			}
 			stores = ir.LiteralFields(root)[name]
 			// whole-struct stores (x = T{...}) initialise the field too
